@@ -227,7 +227,9 @@ def wiring_params():
 
 def summarize_repository_load(I, P):
     """Repository::load from MIR with the four load_* functions as oracles recording their arguments"""
-    st = State(); st.env['fs'] = {}; st.env['io_faults'] = False
+    st = State(); st.env['io_faults'] = False
+    # the datastore may hold anything when the cycle starts (symbolic presence), so that a write / removal by the orchestrating code itself shows up
+    st.env['fs'] = {'/ds/' + f: (z3.Bool('w_present_' + f.split('.')[0]), Obj('file', name='stored_' + f)) for f in ('timestamp.json', 'snapshot.json', 'targets.json', 'latest_known_time.json')}
     ids = {'root': IDV(10), 'timestamp': IDV(11), 'snapshot': IDV(12), 'targets': IDV(13)}
     mk = {'root': root_doc, 'timestamp': timestamp_doc, 'snapshot': snapshot_doc, 'targets': lambda i: targets_doc(i, False)}
     def oracle(name):
@@ -326,3 +328,39 @@ def summarize_read_target(I, P):
     finally:
         I.models[:] = saved
     return [Path(s) for s in done]
+
+# ------------------------------------------------------------------------------------------------ the cycle is what the history checks compose
+def cycle_composition(R, I):
+    """The history checks (C03, C14, C15) compose one update cycle from the summaries of load_root / load_timestamp / load_snapshot / load_targets.
+    That composition is justified here, from the MIR of Repository::load itself: the four functions are called once each, in that order, a failure of
+    one ends the cycle with that error, and Repository::load touches the datastore nowhere else (no write, no removal outside load_*)."""
+    W = wiring_params(); wp, ids = summarize_repository_load(I, W); R.check_interp_clean(I, 'Repository::load (composition)')
+    order_all = ['root', 'timestamp', 'snapshot', 'targets']
+    def dec(m): return {'kind': 'composition', 'ok': {k: bool(z3.is_true(m.eval(W.ok[k], model_completion=True))) for k in order_all}}
+    for p in wp:
+        if p.cls == 'panic': continue
+        R.paths += 1
+        calls = [e[1] for e in p.events if e[0] == 'call']
+        fs = [e for e in p.events if e[0].startswith('fs.') and not (len(e) > 1 and str(e[1]).endswith('latest_known_time.json'))]
+        R.obligation('Repository::load: the datastore is touched only inside load_root / load_timestamp / load_snapshot / load_targets (no write or removal by the orchestrating code)', p.pc,
+                     z3.BoolVal(not fs), decode=dec, group='composition/no-other-datastore-effects')
+        R.obligation('Repository::load: load_root, load_timestamp, load_snapshot, load_targets are called at most once each, in this order', p.pc,
+                     z3.BoolVal(calls == order_all[:len(calls)]), decode=dec, group='composition/order')
+        failed_before = z3.BoolVal(False)
+        for i, n in enumerate(calls):
+            R.obligation(f'Repository::load: load_{n} runs only if every earlier step succeeded', p.pc, z3.And([W.ok[k] for k in calls[:i]] + [z3.BoolVal(True)]), decode=dec, group='composition/stop-at-failure')
+        if p.ok:
+            R.obligation('Repository::load: Ok only if all four steps ran and succeeded', p.pc, z3.And([z3.BoolVal(calls == order_all)] + [W.ok[k] for k in order_all]), decode=dec, group='composition/ok-means-all')
+        else:
+            R.obligation('Repository::load: an error only if one of the steps failed (the orchestrating code adds no failure of its own after a complete, successful chain)', p.pc,
+                         z3.Or([z3.Not(W.ok[k]) for k in calls] + [z3.BoolVal(len(calls) < 4)]), decode=dec, group='composition/err-means-step-failed')
+    R.reach('Repository::load: complete successful cycle reachable', next((p.pc for p in wp if p.ok), [z3.BoolVal(False)]))
+    R.samples.append({'function': 'Repository::load (composition)', 'paths': len(wp)})
+
+def replay_composition(R):
+    """counterexamples of the composition obligations are replayed by the failed-cycle menu (a cycle that fails at snapshot / targets must leave protection intact)"""
+    cxs = [c for c in R.counterexamples if c['group'].startswith('composition/')]
+    if not cxs: return
+    import menu
+    if not menu.run(R, {'failed-cycle'}, 'a failed cycle must leave the stored trust state as protective as before'):
+        R.inconclusive.append(f'counterexample for "{cxs[0]["obligation"]}" did not reproduce with the failed-cycle scenarios')
